@@ -14,6 +14,8 @@ HARNESS = os.path.join(BUILD, "target", "release", "hctl-harness")
 DRIVER = os.path.join(BUILD, "ocaml", "driver")
 BIN_DIR = os.path.join(BUILD, "target-bin", "release")
 NPROC = 16
+SHARD_TIMEOUT = [3000]      # seconds per shard of requests; set by the check from the tier
+HUNG = []                   # ids of requests the implementation did not return from
 
 FORBIDDEN = re.compile(
     r"\b(Admitted|admit|Axiom|Axioms|Parameter|Parameters|Conjecture|Conjectures|Abort All)\b"
@@ -103,7 +105,23 @@ def run_shard(args):
     out = os.path.join(workdir, "out-%d" % idx)
     with open(req, "w") as f:
         f.write("\n".join(lines) + "\n")
-    rc, o = sh([HARNESS, req, out], timeout=3000)
+    rc, o = sh([HARNESS, req, out], timeout=SHARD_TIMEOUT[0])
+    if rc == 124:
+        # the implementation did not return on some request: the first one without an answer
+        answered = set()
+        try:
+            with open(out + ".impl") as f:
+                answered = {ln.split(" ", 1)[0].split("#")[0] for ln in f if ln.strip()}
+        except OSError:
+            pass
+        hung = None
+        for ln in lines:
+            parts = ln.split("\t")
+            if len(parts) > 1 and parts[1] not in answered:
+                hung = parts[1]
+                break
+        return {"error": "no answer from the implementation within %d s (request %s)" % (SHARD_TIMEOUT[0], hung),
+                "hung": hung}
     if rc != 0:
         return {"error": "harness rc=%d %s" % (rc, o[-500:])}
     rc2, o2 = sh("ulimit -s unlimited 2>/dev/null || ulimit -s 1000000; exec %s %s.cases" % (DRIVER, out), timeout=3000)
@@ -126,6 +144,8 @@ def run_requests(lines, workdir, shards=NPROC):
         for r in ex.map(run_shard, [(i, parts[i], workdir) for i in range(n)]):
             if "error" in r:
                 errors.append(r["error"])
+                if r.get("hung"):
+                    HUNG.append(r["hung"])
                 continue
             for cid, a in r["impl"].items():
                 res.setdefault(cid, {})["impl"] = a
